@@ -65,7 +65,7 @@ MENU = {
     "exp": lambda x: math.exp(x / 10.0),
 }
 
-FORMS = ["lists", "tuples", "flat", "copy", "set_used", "yonly"]
+FORMS = ["lists", "tuples", "flat", "copy", "set_used", "yonly", "lent_overwritten", "copy_source_reset"]
 
 
 def build(form, xs, ys):
@@ -91,6 +91,21 @@ def build(form, xs, ys):
         if list(xs) != list(range(len(xs))):
             return None
         return CurveFitting(list(ys))
+    if form == "lent_overwritten":
+        # the caller re-uses its own buffers after handing them over
+        xl, yl = list(xs), list(ys)
+        c = CurveFitting(xl, yl)
+        for k in range(len(xl)):
+            xl[k] = -3.0 * xl[k] + k
+            yl[k] = 7.0 - k
+        xl.append(5.0)
+        del yl[0]
+        return c
+    if form == "copy_source_reset":
+        src = CurveFitting(list(xs), list(ys))
+        c = CurveFitting(src)
+        src.set([1.0, 2.0, 4.0], [3.0, -1.0, 2.0])
+        return c
     raise KeyError(form)
 
 
